@@ -43,6 +43,7 @@ import (
 	"fmt"
 	"io"
 	"net"
+	"reflect"
 	"testing"
 	"time"
 
@@ -349,9 +350,9 @@ func (a *verifC11AEAD) Open(dst, nonce, ct, ad []byte) ([]byte, error) {
 	return a.inner.Open(dst, nonce, ct, ad)
 }
 func (a *verifC11AEAD) Seal(dst, nonce, pt, ad []byte) []byte {
-	key := string(a.cs.secretKey[:]) + string(nonce)
+	key := string(verifC11Bytes(a.cs.secretKey)) + string(nonce)
 	if _, ok := a.mon.seen[key]; ok && a.mon.dup == "" {
-		a.mon.dup = fmt.Sprintf("key=%x nonce=%x", a.cs.secretKey[:4], nonce)
+		a.mon.dup = fmt.Sprintf("key=%x nonce=%x", verifC11Bytes(a.cs.secretKey)[:4], nonce)
 	}
 	a.mon.seen[key] = struct{}{}
 	a.mon.n++
@@ -489,14 +490,19 @@ func (s *verifC11S) handshake(allBytes bool) (*Machine, *Machine, verifC11RefHS,
 			act1, ref.act1, act2, ref.act2, act3, ref.act3))
 	}
 	vc.Count("handshake_keys_evals", 1)
-	if a.sendCipher.secretKey != b.recvCipher.secretKey ||
-		a.recvCipher.secretKey != b.sendCipher.secretKey ||
-		a.sendCipher.salt != b.recvCipher.salt || a.recvCipher.salt != b.sendCipher.salt {
+	// private fields are read through verifC11Bytes (reflection) so that a
+	// representation change (array <-> slice) in lnd does not stop the
+	// harness from building.
+	vb := verifC11Bytes
+	if !bytes.Equal(vb(a.sendCipher.secretKey), vb(b.recvCipher.secretKey)) ||
+		!bytes.Equal(vb(a.recvCipher.secretKey), vb(b.sendCipher.secretKey)) ||
+		!bytes.Equal(vb(a.sendCipher.salt), vb(b.recvCipher.salt)) ||
+		!bytes.Equal(vb(a.recvCipher.salt), vb(b.sendCipher.salt)) {
 
 		s.viol("handshake_keys", "send!=recv", "after a completed handshake one side's send key/salt differs from the other's receive key/salt")
 	}
-	if a.sendCipher.secretKey != ref.sk || a.recvCipher.secretKey != ref.rk ||
-		a.sendCipher.salt != ref.ck || a.recvCipher.salt != ref.ck ||
+	if !bytes.Equal(vb(a.sendCipher.secretKey), ref.sk[:]) || !bytes.Equal(vb(a.recvCipher.secretKey), ref.rk[:]) ||
+		!bytes.Equal(vb(a.sendCipher.salt), ref.ck[:]) || !bytes.Equal(vb(a.recvCipher.salt), ref.ck[:]) ||
 		a.sendCipher.nonce != 0 || a.recvCipher.nonce != 0 {
 
 		s.viol("ciphertext_reference", "session-keys", "session keys / salt differ from the BOLT-8 reference")
@@ -1098,4 +1104,18 @@ func verifC11Run(t *testing.T, vc *verifCtx, total, tcpEvery int) {
 		}
 		vc.CaseDone(i)
 	}
+}
+
+// verifC11Bytes returns the bytes of a byte array or byte slice value.
+func verifC11Bytes(v any) []byte {
+	rv := reflect.ValueOf(v)
+	switch rv.Kind() {
+	case reflect.Slice:
+		return append([]byte(nil), rv.Bytes()...)
+	case reflect.Array:
+		out := make([]byte, rv.Len())
+		reflect.Copy(reflect.ValueOf(out), rv)
+		return out
+	}
+	return nil
 }
